@@ -22,6 +22,7 @@ RULE = (
     "exceeds the threshold on both sides and within d(J)+d(J[pi]) of each other otherwise. Duplicate rows only for "
     "the tie-insensitive aggregators. Non-trivial = pi != id applied to a matrix with pairwise distinct rows (and a "
     "non-constant configured vector for the equivariance cases). Distinct = distinct (configuration, J, dtype)."
+    " `many-rows` (Krum, TrimmedMean, Mean, Sum, GradDrop): 26-44 rows, one in two beyond that up to 1100; one case in 14 widened by 5000 / 70 000 columns."
 )
 ASSUMPTIONS = [
     "decision margins computed by float64 transcriptions (refs.krum_scores, refs.mgda_frank_wolfe)",
